@@ -74,57 +74,87 @@ Proof.
 Qed.
 
 (* << in expand mode: the grown word holds code * 2^n exactly, for |code| < 2^47 *)
+Lemma bitlen_lower_bound c : c <> 0 -> 2^(bitlen c - 1) <= Z.abs c.
+Proof.
+  intros Hc. unfold bitlen. replace (c =? 0) with false by lia.
+  replace (Z.log2 (Z.abs c) + 1 - 1) with (Z.log2 (Z.abs c)) by lia. apply Z.log2_spec. lia.
+Qed.
 Lemma bitlen_bound c : c <> 0 -> Z.abs c < 2^(bitlen c).
 Proof.
   intros Hc. unfold bitlen. replace (c =? 0) with false by lia.
   pose proof (Z.log2_spec (Z.abs c) ltac:(lia)) as (_ & H). replace (Z.succ (Z.log2 (Z.abs c))) with (Z.log2 (Z.abs c) + 1) in H by lia. exact H.
 Qed.
+Lemma py_bits_nonneg c : 0 <= py_bits c.
+Proof. unfold py_bits. destruct (0 <=? c); apply bitlen_nonneg. Qed.
+Lemma py_bits_bound c : - 2^(py_bits c) <= c < 2^(py_bits c).
+Proof.
+  unfold py_bits. destruct (0 <=? c) eqn:E.
+  - destruct (Z.eq_dec c 0) as [->|Hc]; [cbn; lia|]. pose proof (bitlen_bound c Hc). pose proof (bitlen_nonneg c).
+    assert (0 < 2^(bitlen c)) by (apply pow2_pos; lia). lia.
+  - destruct (Z.eq_dec (- c - 1) 0) as [H0|Hc]; [rewrite H0; cbn; lia|]. pose proof (bitlen_bound (- c - 1) Hc). pose proof (bitlen_nonneg (- c - 1)).
+    assert (0 < 2^(bitlen (- c - 1))) by (apply pow2_pos; lia). lia.
+Qed.
 Theorem lshift_expand_in_range f c n : 0 <= n -> 1 <= nw f -> in_range f c ->
   in_range (lshift_fmt ShExpand f [c] n) (c * 2^n).
 Proof.
-  intros Hn Hw Hr. unfold lshift_fmt. cbn [map fold_right]. unfold np_bitlen_half.
+  intros Hn Hw Hr. unfold lshift_fmt. cbn [map fold_right].
   assert (Pn: 0 < 2^n) by (apply pow2_pos; lia).
-  destruct (c =? 0) eqn:Ec.
-  - assert (c = 0) by lia. subst. rewrite Z.mul_0_l. unfold in_range, cmin, cmax. cbn [sg nw].
-    set (W := Z.max (nw f) (Z.max (-1) (-1) + (if sg f then 1 else 0) + n)).
-    assert (1 <= W) by (unfold W; lia). assert (0 < 2^(W - 1)) by (apply pow2_pos; lia). assert (0 < 2^W) by (apply pow2_pos; lia).
-    destruct (sg f); lia.
-  - assert (Hnz: c <> 0) by lia. pose proof (bitlen_bound c Hnz) as Hb. pose proof (bitlen_nonneg c) as Hb0.
-    assert (Hb1: 1 <= bitlen c) by (unfold bitlen; replace (c =? 0) with false by lia; pose proof (Z.log2_nonneg (Z.abs c)); lia).
-    replace (Z.max (bitlen c) (-1)) with (bitlen c) by lia.
-    unfold in_range, cmin, cmax. cbn [sg nw].
-    set (W := Z.max (nw f) (bitlen c + (if sg f then 1 else 0) + n)).
-    unfold in_range, cmin, cmax in Hr.
-    destruct (sg f) eqn:Es.
-    + assert (HW: bitlen c + n <= W - 1) by (unfold W; lia).
-      assert (2^(bitlen c + n) <= 2^(W - 1)) by (apply pow2_le; lia). rewrite pow2_split in H by lia.
-      assert (Z.abs (c * 2^n) < 2^(bitlen c) * 2^n) by (rewrite Z.abs_mul, (Z.abs_eq (2^n)) by lia; nia). lia.
-    + assert (HW: bitlen c + n <= W) by (unfold W; lia).
-      assert (2^(bitlen c + n) <= 2^W) by (apply pow2_le; lia). rewrite pow2_split in H by lia.
-      assert (0 <= c) by lia. assert (c * 2^n < 2^(bitlen c) * 2^n) by nia. nia.
+  pose proof (py_bits_nonneg c) as Hb0. pose proof (py_bits_bound c) as Hb.
+  replace (Z.max (py_bits c) 0) with (py_bits c) by lia.
+  unfold in_range, cmin, cmax. cbn [sg nw].
+  set (W := Z.max (nw f) (py_bits c + (if sg f then 1 else 0) + n)).
+  unfold in_range, cmin, cmax in Hr.
+  destruct (sg f) eqn:Es.
+  - assert (HW: py_bits c + n <= W - 1) by (unfold W; lia).
+    assert (H: 2^(py_bits c + n) <= 2^(W - 1)) by (apply pow2_le; lia). rewrite pow2_split in H by lia. nia.
+  - assert (HW: py_bits c + n <= W) by (unfold W; lia).
+    assert (H: 2^(py_bits c + n) <= 2^W) by (apply pow2_le; lia). rewrite pow2_split in H by lia. nia.
 Qed.
 
-(* the whole << in expand mode: value(x << n) = value(x) * 2^n, no flag; the operand is a function
-   argument, hence unchanged.  The bound n_word + n <= 62 is the one of the quantifier. *)
-Theorem lshift_expand_exact f c n : 0 <= n -> 1 <= nw f -> nw f + n <= 62 -> in_range f c ->
+(* the shifted raw value is exact whatever the word length and the count: int64 / uint64 below 64 bits, Python integers from there on *)
+Lemma lshift_raw_exact f c n : 0 <= n -> 1 <= nw f -> in_range f c -> lshift_raw f c n = c * 2^n.
+Proof.
+  intros Hn Hw Hr. unfold lshift_raw. rewrite Z.shiftl_mul_pow2 by lia. destruct (64 <=? nw f + n) eqn:E; [reflexivity|].
+  destruct (code_mag f c Hw Hr) as (Hs & Hu). assert (Pn: 0 < 2^n) by (apply pow2_pos; lia).
+  assert (E63: 2^(nw f + n) <= 2^63) by (apply pow2_le; lia). rewrite pow2_split in E63 by lia.
+  assert (2^63 < 2^64) by (apply pow2_lt; lia).
+  assert (2^(nw f) = 2 * 2^(nw f - 1)) by (apply pow2_double; lia). assert (0 < 2^(nw f - 1)) by (apply pow2_pos; lia).
+  destruct (sg f).
+  - specialize (Hs eq_refl). apply wrap_i64_small. rewrite Z.abs_mul, (Z.abs_eq (2^n)) by lia. nia.
+  - specialize (Hu eq_refl). apply wrap_u64_small. nia.
+Qed.
+
+(* the whole << in expand mode: value(x << n) = value(x) * 2^n, no flag, for EVERY word length and every count; the operand is
+   a function argument, hence unchanged *)
+Theorem lshift_expand_exact f c n : 0 <= n -> 1 <= nw f -> in_range f c ->
   exists w, fxp_lshift ShExpand f c n = Ok (lshift_fmt ShExpand f [c] n, w) /\
     w_codes w = [c * 2^n] /\ w_ovf w = false /\ w_unf w = false /\ nf (lshift_fmt ShExpand f [c] n) = nf f.
 Proof.
-  intros Hn Hw H62 Hr. unfold fxp_lshift.
-  assert (Hraw: lshift_raw f c n = c * 2^n).
-  { unfold lshift_raw. replace (64 <=? nw f) with false by lia. rewrite Z.shiftl_mul_pow2 by lia.
-    destruct (code_mag f c Hw Hr) as (Hs & Hu). assert (Pn: 0 < 2^n) by (apply pow2_pos; lia).
-    assert (E62: 2^(nw f + n) <= 2^62) by (apply pow2_le; lia). rewrite pow2_split in E62 by lia.
-    assert (2^62 < 2^63) by (apply pow2_lt; lia). assert (2^63 < 2^64) by (apply pow2_lt; lia).
-    assert (2^(nw f) = 2 * 2^(nw f - 1)) by (apply pow2_double; lia). assert (0 < 2^(nw f - 1)) by (apply pow2_pos; lia).
-    destruct (sg f).
-    - specialize (Hs eq_refl). apply wrap_i64_small. rewrite Z.abs_mul, (Z.abs_eq (2^n)) by lia. nia.
-    - specialize (Hu eq_refl). apply wrap_u64_small. nia. }
-  rewrite Hraw. pose proof (lshift_expand_in_range f c n Hn Hw Hr) as Hin.
+  intros Hn Hw Hr. unfold fxp_lshift. rewrite (lshift_raw_exact f c n Hn Hw Hr).
+  pose proof (lshift_expand_in_range f c n Hn Hw Hr) as Hin.
   set (f' := lshift_fmt ShExpand f [c] n) in *.
   assert (Hw': 1 <= nw f') by (unfold f', lshift_fmt; cbn [nw]; lia).
   destruct (raw_arr_store f' Trunc Saturate (c * 2^n) Hw' Hin) as (w & Hs & Hc & Ho & Hu).
   rewrite Hs. cbn [bind]. exists w. repeat split; try assumption.
+Qed.
+(* a shift by zero keeps the format (no bit is added that is not needed) *)
+Theorem lshift_zero_keeps_format f c : 1 <= nw f -> in_range f c -> lshift_fmt ShExpand f [c] 0 = f.
+Proof.
+  intros Hw Hr. unfold lshift_fmt. cbn [map fold_right]. pose proof (py_bits_nonneg c) as Hb0.
+  replace (Z.max (py_bits c) 0) with (py_bits c) by lia.
+  assert (Hle: py_bits c + (if sg f then 1 else 0) <= nw f).
+  { unfold in_range, cmin, cmax in Hr. unfold py_bits. destruct (sg f) eqn:Es.
+    - destruct (0 <=? c) eqn:E.
+      + destruct (Z.eq_dec c 0) as [->|Hc]; [cbn; lia|]. assert (Hlt: bitlen c < nw f); [|lia].
+        apply Z.nle_gt. intros Hge. pose proof (bitlen_lower_bound c Hc) as Hl.
+        assert (2^(nw f - 1) <= 2^(bitlen c - 1)) by (apply pow2_le; lia). lia.
+      + destruct (Z.eq_dec (- c - 1) 0) as [H0|Hc]; [rewrite H0; cbn; lia|]. assert (Hlt: bitlen (- c - 1) < nw f); [|lia].
+        apply Z.nle_gt. intros Hge. pose proof (bitlen_lower_bound (- c - 1) Hc) as Hl.
+        assert (2^(nw f - 1) <= 2^(bitlen (- c - 1) - 1)) by (apply pow2_le; lia). lia.
+    - replace (0 <=? c) with true by lia. destruct (Z.eq_dec c 0) as [->|Hc]; [cbn; lia|]. assert (Hlt: bitlen c <= nw f); [|lia].
+      apply Z.nlt_ge. intros Hge. pose proof (bitlen_lower_bound c Hc) as Hl.
+      assert (2^(nw f) <= 2^(bitlen c - 1)) by (apply pow2_le; lia). lia. }
+  destruct f as [s w k]. cbn [sg nw nf] in *. f_equal. lia.
 Qed.
 
 (* << in trunc/keep mode: same format; exact when representable, else the saturated value *)
@@ -133,15 +163,7 @@ Theorem lshift_keep f c n : 0 <= n -> 1 <= nw f -> nw f + n <= 62 -> in_range f 
     (in_range f (c * 2^n) -> w_codes w = [c * 2^n] /\ w_ovf w = false /\ w_unf w = false).
 Proof.
   intros Hn Hw H62 Hr. unfold fxp_lshift. cbn [lshift_fmt].
-  assert (Hraw: lshift_raw f c n = c * 2^n).
-  { unfold lshift_raw. replace (64 <=? nw f) with false by lia. rewrite Z.shiftl_mul_pow2 by lia.
-    destruct (code_mag f c Hw Hr) as (Hs & Hu). assert (Pn: 0 < 2^n) by (apply pow2_pos; lia).
-    assert (E62: 2^(nw f + n) <= 2^62) by (apply pow2_le; lia). rewrite pow2_split in E62 by lia.
-    assert (2^62 < 2^63) by (apply pow2_lt; lia). assert (2^63 < 2^64) by (apply pow2_lt; lia).
-    assert (2^(nw f) = 2 * 2^(nw f - 1)) by (apply pow2_double; lia). assert (0 < 2^(nw f - 1)) by (apply pow2_pos; lia).
-    destruct (sg f).
-    - specialize (Hs eq_refl). apply wrap_i64_small. rewrite Z.abs_mul, (Z.abs_eq (2^n)) by lia. nia.
-    - specialize (Hu eq_refl). apply wrap_u64_small. nia. }
+  assert (Hraw: lshift_raw f c n = c * 2^n) by (apply lshift_raw_exact; assumption).
   rewrite Hraw. set (z := c * 2^n).
   assert (Hzb: Z.abs z < 2^63).
   { unfold z. destruct (code_mag f c Hw Hr) as (Hs & Hu). assert (Pn: 0 < 2^n) by (apply pow2_pos; lia).
